@@ -1139,6 +1139,10 @@ func TestReplay(t *testing.T) {
 		replayRace(t)
 		return
 	}
+	if strings.Contains(evid.ReplayTest(), "Commit") {
+		replayCommit(t)
+		return
+	}
 	var c c09Case
 	ok, err := evid.ReplayCase(&c)
 	if !ok {
